@@ -922,8 +922,27 @@ def rule_scanner_stops_at_signature(repo: Repo, rep, rule: str = "R15.7") -> Non
     sites = [("Protocol stubs", "visit.endpoint.endpoint_visitor:EndpointVisitor.generate_endpoint_protocol"),
              ("mock methods", "visit.endpoint.generators.mock_generator:MockGenerator._transform_to_mock")]
     n_ok = 0
+    def _scans(f) -> bool:
+        def _def_test(node) -> bool:
+            return any(isinstance(c, ast.Call) and isinstance(c.func, ast.Attribute) and c.func.attr == "startswith" and c.args
+                       and (const_str(c.args[0]) or "").startswith("async def") for c in ast.walk(node))
+        if any(isinstance(w, ast.While) and isinstance(w.test, ast.Compare) and isinstance(w.test.comparators[0], ast.Call) and dotted(w.test.comparators[0].func) == "len"
+               for w in own_nodes(f.node)) and f.cls is not None and any(
+                isinstance(c, ast.Call) and isinstance(c.func, ast.Attribute) and c.func.attr in f.cls.methods and f.cls.methods[c.func.attr] is not f
+                and isinstance(parent(c), (ast.If, ast.BoolOp, ast.UnaryOp)) and _def_test(f.cls.methods[c.func.attr].node) and not any(
+                    isinstance(w2, (ast.While, ast.For)) for w2 in ast.walk(f.cls.methods[c.func.attr].node)) for c in ast.walk(f.node)):
+            return True
+        return any(isinstance(w, ast.While) and isinstance(w.test, ast.Compare) and isinstance(w.test.ops[0], ast.Lt) for w in own_nodes(f.node)) and any(isinstance(c, ast.Call) and isinstance(c.func, ast.Attribute) and c.func.attr == "startswith" and c.args
+                                                       and any((const_str(a_) or "").startswith("async def") for a_ in (c.args[0].elts if isinstance(c.args[0], ast.Tuple) else [c.args[0]]))
+                                                       for c in ast.walk(f.node))
+
     for label, spec in sites:
         fn0 = repo.func(spec)
+        if not _scans(fn0) and fn0.cls is not None:
+            # the scan was moved into a helper of the class (`self._write_protocol_stubs(writer, full_method_code)`): judge it where it is
+            moved = [f for f in fn0.cls.methods.values() if f is not fn0 and _scans(f)]
+            if len(moved) == 1:
+                fn0 = moved[0]
 
         def body(fn, r, label=label):
             nonlocal n_ok
@@ -931,9 +950,17 @@ def rule_scanner_stops_at_signature(repo: Repo, rep, rule: str = "R15.7") -> Non
             cfg = CFG(fn.node)
             dom = cfg.dominators()
             # the scanning loop: the outermost `while <i> < len(<lines>)` whose <lines> is a split of rendered code
+            def _len_of(e: ast.AST) -> Optional[str]:
+                """`len(<name>)`, directly or through a local (`total = len(source_lines)`) -> <name>"""
+                ei = e
+                if isinstance(e, ast.Name) and L.single(e.id) is not None:
+                    ei = L.single(e.id)
+                if isinstance(ei, ast.Call) and dotted(ei.func) == "len" and ei.args and isinstance(ei.args[0], ast.Name):
+                    return ei.args[0].id
+                return None
+
             whiles = [w for w in own_nodes(fn.node) if isinstance(w, ast.While) and isinstance(w.test, ast.Compare) and len(w.test.ops) == 1 and isinstance(w.test.ops[0], ast.Lt)
-                      and isinstance(w.test.left, ast.Name) and isinstance(w.test.comparators[0], ast.Call) and dotted(w.test.comparators[0].func) == "len"
-                      and w.test.comparators[0].args and isinstance(w.test.comparators[0].args[0], ast.Name)]
+                      and isinstance(w.test.left, ast.Name) and _len_of(w.test.comparators[0]) is not None]
             outer = [w for w in whiles if not any(w is not o and any(x is w for x in ast.walk(o)) for o in whiles)]
             if not outer:
                 # a `for` scan cannot step back: leaving the signature branch with `break` / `return` is the only way on
@@ -943,24 +970,54 @@ def rule_scanner_stops_at_signature(repo: Repo, rep, rule: str = "R15.7") -> Non
                     raise AnalysisError(f"{rule}: {fn.qualname} scans the rendered method with a `for` loop - the stop condition of this form is not modelled")
                 raise AnalysisError(f"{rule}: the line-scanning loop (`while i < len(lines)`) of {fn.qualname} was not found (anchor)")
             w = outer[0]
-            idx, lines = w.test.left.id, w.test.comparators[0].args[0].id
+            idx, lines = w.test.left.id, _len_of(w.test.comparators[0])
             heads = [n.id for n in cfg.nodes if n.kind == "test" and n.stmt is w]
             if not heads:
                 raise AnalysisError(f"{rule}: CFG node of the scanning loop of {fn.qualname} not found")
             # statements that end the scan: `i = len(lines)`
             ends = {n.id for n in cfg.nodes if n.kind == "stmt" and isinstance(n.ast, ast.Assign) and len(n.ast.targets) == 1 and isinstance(n.ast.targets[0], ast.Name)
-                    and n.ast.targets[0].id == idx and isinstance(n.ast.value, ast.Call) and dotted(n.ast.value.func) == "len" and n.ast.value.args
-                    and isinstance(n.ast.value.args[0], ast.Name) and n.ast.value.args[0].id == lines}
+                    and n.ast.targets[0].id == idx and _len_of(n.ast.value) == lines}
             # emissions made for the implementation signature: write_line calls under a positive `startswith("async def ")` test
+            def _sees_def(t: ast.AST, depth: int = 0) -> bool:
+                """the test looks for the start of a `def` / `async def` line - itself, or through a predicate helper of the class"""
+                ti = L.inline(t, stop=tuple(L.params)) if depth == 0 else t
+                for c in ast.walk(ti):
+                    if isinstance(c, ast.Call) and isinstance(c.func, ast.Attribute) and c.func.attr == "startswith" and c.args and any(
+                            (const_str(a_) or "").startswith(("async def", "def ")) for a_ in (c.args[0].elts if isinstance(c.args[0], ast.Tuple) else [c.args[0]])):
+                        return True
+                    if depth == 0 and isinstance(c, ast.Call) and isinstance(c.func, ast.Attribute) and fn.cls is not None and c.func.attr in fn.cls.methods and fn.cls.methods[c.func.attr] is not fn:
+                        if _sees_def(fn.cls.methods[c.func.attr].node, 1):
+                            return True
+                return False
+
+            def _sees_prefix(t: ast.AST, prefix: str) -> bool:
+                ti = L.inline(t, stop=tuple(L.params))
+                return any(isinstance(c, ast.Call) and isinstance(c.func, ast.Attribute) and c.func.attr == "startswith" and c.args and any(
+                    (const_str(a_) or "").startswith(prefix) for a_ in (c.args[0].elts if isinstance(c.args[0], ast.Tuple) else [c.args[0]])) for c in ast.walk(ti))
+
             starts = []
+            wnames = {a for a in L.params if "writer" in a} | {nm for nm, ds in L.defs.items() if any(v is not None and "CodeWriter" in norm(v) for _, v, _ in ds)}
+
+            def _emits(a: ast.AST) -> bool:
+                """writes a line itself, or hands the writer to a helper (`self._write_final_signature_stub(writer, lines, i)`)"""
+                for c in calls_in(a):
+                    if isinstance(c.func, ast.Attribute) and c.func.attr in ("write_line", "write_block"):
+                        return True
+                    if any(isinstance(x, ast.Name) and x.id in wnames for x in c.args) and not (isinstance(c.func, ast.Attribute) and isinstance(c.func.value, ast.Name) and c.func.value.id in wnames):
+                        return True
+                return False
+
             for n in cfg.nodes:
-                if n.kind != "stmt" or n.ast is None or n.copy or not any(isinstance(c.func, ast.Attribute) and c.func.attr == "write_line" for c in calls_in(n.ast)):
+                if n.kind != "stmt" or n.ast is None or n.copy or not _emits(n.ast):
                     continue
-                for g, pol in guards(cfg, n.id, dom):
-                    if g.kind == "test" and pol is True and any(isinstance(c, ast.Call) and isinstance(c.func, ast.Attribute) and c.func.attr == "startswith" and c.args
-                                                               and (const_str(c.args[0]) or "").startswith(("async def", "def ")) for c in ast.walk(L.inline(g.ast, stop=tuple(L.params)))):
-                        starts.append(n)
-                        break
+                gs_ = [(g, pol) for g, pol in guards(cfg, n.id, dom) if g.kind == "test"]
+                inside = any(g.stmt is w for g, _ in gs_) or any(x is n.ast for x in ast.walk(w))
+                if not inside:
+                    continue
+                if any(pol is True and _sees_def(g.ast) for g, pol in gs_):
+                    starts.append(n)
+                elif not any(pol is True and _sees_prefix(g.ast, "@overload") for g, pol in gs_) and any(pol is False and _sees_prefix(g.ast, "@overload") for g, pol in gs_):
+                    starts.append(n)  # reached by elimination: not an @overload line (that branch left the iteration), so the definition line
             if not starts:
                 raise AnalysisError(f"{rule}: nothing is written under a `startswith('async def ')` test in {fn.qualname} (anchor)")
             # the index is not moved again once it has been set to the end (before the loop head is reached)
@@ -973,9 +1030,7 @@ def rule_scanner_stops_at_signature(repo: Repo, rep, rule: str = "R15.7") -> Non
                 if p_ is None:
                     continue
                 # ... or the index was already set to the end on every way to this emission
-                gnodes = [g for g, pol in guards(cfg, s_.id, dom) if g.kind == "test" and pol is True and any(
-                    isinstance(c, ast.Call) and isinstance(c.func, ast.Attribute) and c.func.attr == "startswith" and c.args and (const_str(c.args[0]) or "").startswith(("async def", "def "))
-                    for c in ast.walk(L.inline(g.ast, stop=tuple(L.params))))]
+                gnodes = [g for g, pol in guards(cfg, s_.id, dom) if g.kind == "test" and pol is True and _sees_def(g.ast)]
                 set_before = bool(gnodes) and not moved_after_end and all(
                     cfg.must_pass(m, ends, {s_.id}) is None for g in gnodes for m, lab in cfg.succ[g.id] if lab == "true")
                 if not set_before:
@@ -993,5 +1048,8 @@ def rule_scanner_stops_at_signature(repo: Repo, rep, rule: str = "R15.7") -> Non
 
         from sa.report import with_flatten_fallback
 
-        with_flatten_fallback(rep, fn0, body)
+        try:
+            with_flatten_fallback(rep, fn0, body)
+        except AnalysisError as e:
+            rep.error(str(e))  # this rule lost its anchor: the other rules of the property go on
     rep.count(f"{rule}:scanners", len(sites))
